@@ -5,6 +5,7 @@ cd /verif
 IDS="$@"; [ -z "$IDS" ] && IDS=$(ls seeded | grep -v "benign\|results.log")
 for id in $IDS; do
   [ -f seeded/$id/patch.diff ] || continue
+  if grep -q '"status": "obsolete"' seeded/$id/meta.json 2>/dev/null; then echo "$id skipped (obsolete, see meta.json)"; continue; fi
   wt=/tmp/wt_re/$id; rm -rf $wt; mkdir -p /tmp/wt_re
   git -C /repo worktree add --detach -q $wt || continue
   git -C $wt apply /verif/seeded/$id/patch.diff || { echo "$id: patch does not apply"; git -C /repo worktree remove --force $wt; continue; }
